@@ -1,0 +1,38 @@
+// Package atomicfile provides crash-safe replacement of small files.
+package atomicfile // import "gitlab.com/yawning/obfs4.git/internal/atomicfile"
+
+import (
+	"os"
+	"path/filepath"
+)
+
+// WriteFile replaces the contents of filename with data.  The data is written
+// to a temporary file in the same directory, flushed to stable storage and
+// then renamed over filename, so that a crash at any point leaves either the
+// previous or the new contents in place, never a truncated file.
+func WriteFile(filename string, data []byte, perm os.FileMode) error {
+	dir, name := filepath.Split(filename)
+	if dir == "" {
+		dir = "."
+	}
+	f, err := os.CreateTemp(dir, name+".tmp*")
+	if err != nil {
+		return err
+	}
+	tmpName := f.Name()
+	defer os.Remove(tmpName) // Fails harmlessly once the rename succeeded.
+
+	if _, err = f.Write(data); err == nil {
+		err = f.Chmod(perm)
+	}
+	if err == nil {
+		err = f.Sync()
+	}
+	if cerr := f.Close(); err == nil {
+		err = cerr
+	}
+	if err != nil {
+		return err
+	}
+	return os.Rename(tmpName, filename)
+}
